@@ -140,11 +140,12 @@ Fixpoint root_loop (fuel : nat) (n i y : Z) : res Z :=
       if y' <? x then root_loop f n i y' else Ok x
   end.
 
-Definition root_fuel (i : Z) : nat := Z.to_nat (2 * Z.log2 i + 8).
+(* from far above the root the iteration shrinks x by the factor (n-1)/n per round *)
+Definition root_fuel (i n : Z) : nat := Z.to_nat (n * (Z.log2 i + 2) + 8).
 
 Definition positive_root (i n : Z) : res (bool * Z) :=
   let y := root_step n i 1 in
-  do x <- root_loop (root_fuel i) n i y;
+  do x <- root_loop (root_fuel i n) n i y;
   Ok (x ^ n =? i, x).
 
 Definition mp_root_boost (i n : Z) : res (bool * Z) :=
